@@ -2,6 +2,7 @@ package main
 
 import (
 	"fmt"
+	"go/token"
 	"os"
 )
 
@@ -447,6 +448,42 @@ func installThreads(m *Machine) {
 			}
 		}
 		return nil
+	}
+	// sync.Pool: Get may hand back any object put before or make a new one. Modelled as a stack per pool with a
+	// decision at every Get on a non-empty pool: reuse the most recent object, or call New.
+	I["(*sync.Pool).Put"] = func(r *Run, fr *Frame, a []Value) Value {
+		r.stub("sync.Pool (Get forks: most recently put object, or New)")
+		p := a[0].(Ptr)
+		if x, ok := a[1].(Iface); ok && x.T == nil {
+			return nil
+		}
+		if r.Pools == nil {
+			r.Pools = map[*Value][]Value{}
+		}
+		r.Pools[p] = append(r.Pools[p], a[1])
+		if r.Sch != nil && r.Sch.active {
+			r.releaseVC(p)
+		}
+		return nil
+	}
+	I["(*sync.Pool).Get"] = func(r *Run, fr *Frame, a []Value) Value {
+		r.stub("sync.Pool (Get forks: most recently put object, or New)")
+		p := a[0].(Ptr)
+		if lst := r.Pools[p]; len(lst) > 0 {
+			if r.decide(2, func(int) *Term { return nil }) == 0 {
+				x := lst[len(lst)-1]
+				r.Pools[p] = lst[:len(lst)-1]
+				if r.Sch != nil && r.Sch.active {
+					r.acquireVC(p)
+				}
+				return x
+			}
+		}
+		st := (*p).(Struct)
+		if nf, ok := st[len(st)-1].(*Closure); ok && nf != nil {
+			return r.call(fr, nf, nil, token.NoPos)
+		}
+		return Iface{}
 	}
 	I["(*sync.WaitGroup).Add"] = func(r *Run, fr *Frame, a []Value) Value {
 		cell := a[0].(Ptr)
